@@ -4,6 +4,8 @@
 From Coq Require Import ZArith List Bool.
 From CP Require Import Core.Bytes Core.Result Prim.Mpint Spec.PL Spec.SshSpec Ssh.Record Lemmas.MpintLemmas Lemmas.SshLemmas.
 From CP Require Import Spec.Registry Lemmas.RegistrySsh Spec.SshMsgSpec Lemmas.SshMsgLemmas.
+From CP Require Text.Field Spec.FieldSpec Text.Cookie Lemmas.SoftwareLemmas.
+From CP Require Import Ssh.Software.
 From CPGen Require Import Tables.
 Open Scope Z_scope.
 
@@ -83,3 +85,15 @@ Proof. exact ssh_messages_decode. Qed.
 (* the two's complement value of the RFC mpint of a non-negative number is that number *)
 Theorem C07_mpint_value : forall z, 0 <= z -> mpint_value (mpint_payload z) = z.
 Proof. exact mpint_value_payload. Qed.
+
+(* The software version of the identification string, for the vendors the library splits into vendor and version (OpenSSH_,
+   dropbear_, IPSSH-): whatever the split accepts is written back exactly as received; a version that does not begin with the
+   separator comes back; a repeated separator is not split at all (such a string is kept verbatim by another class) *)
+Theorem C07_software_version_verbatim : forall vendor sep l ver, sw_parse vendor sep l = Ok ver -> sw_compose vendor sep ver = l.
+Proof. exact SoftwareLemmas.sw_parse_verbatim. Qed.
+Theorem C07_software_version_roundtrip : forall vendor sep w, FieldSpec.no_sep sep vendor = true -> w <> nil -> Cookie.head_not sep w = true ->
+  sw_parse vendor sep (sw_compose vendor sep (Some w)) = Ok (Some w).
+Proof. exact SoftwareLemmas.sw_compose_parse. Qed.
+Theorem C07_software_version_separator_run : forall vendor sep r, FieldSpec.no_sep sep vendor = true ->
+  sw_parse vendor sep (vendor ++ sep :: sep :: r) = Err InvalidType.
+Proof. exact SoftwareLemmas.sw_parse_separator_run. Qed.
